@@ -11,13 +11,15 @@
 (*     byte first (base-256 little-endian), used where decimal arithmetic  *)
 (*     (BCD, x10, div 10) on 64-bit quantities is needed.                  *)
 (*                                                                         *)
-(* Everything is total on well-formed arguments and written with function  *)
-(* constructors (fast in TLC); the few recursive operators recurse over    *)
-(* the width only.                                                         *)
+(* Written for TLC's evaluator: tables are constant-level definitions      *)
+(* (evaluated once), sequences are built with SubSeq / \o (array copies)   *)
+(* wherever possible, recursion only runs over the width.  Widths up to    *)
+(* MaxW bits are supported by the tables.                                  *)
 (***************************************************************************)
 EXTENDS Integers, Sequences
 
 Bit == {0, 1}
+MaxW == 160
 
 IsBV(b) == /\ DOMAIN b = 1..Len(b)
            /\ \A k \in 1..Len(b) : b[k] \in Bit
@@ -25,22 +27,25 @@ IsBV(b) == /\ DOMAIN b = 1..Len(b)
 Width(b) == Len(b)
 
 (* 2^n for 0 <= n <= 30 *)
-Pow2(n) == 2 ^ n
+Pow2T == [n \in 0..30 |-> 2 ^ n]
+Pow2(n) == Pow2T[n]
 
-Zeros(n) == [k \in 1..n |-> 0]
-Ones(n)  == [k \in 1..n |-> 1]
+ZerosT == [n \in 0..MaxW |-> [k \in 1..n |-> 0]]
+OnesT  == [n \in 0..MaxW |-> [k \in 1..n |-> 1]]
+Zeros(n) == ZerosT[n]
+Ones(n)  == OnesT[n]
 
 (* bit k (0-based) of bit vector b; bits beyond the width read as 0 *)
 BitAt(b, k) == IF k + 1 <= Len(b) THEN b[k + 1] ELSE 0
 
-(* width-n vector with only bit k (0-based) set *)
-OneHot(n, k) == [j \in 1..n |-> IF j = k + 1 THEN 1 ELSE 0]
+(* width-n vector with only bit k (0-based) set, 0 <= k < n *)
+OneHot(n, k) == Zeros(k) \o <<1>> \o Zeros(n - k - 1)
 
-(* width-n vector with bits lo..hi-1 (0-based, half open) set *)
-MaskRange(n, lo, hi) == [j \in 1..n |-> IF lo < j /\ j <= hi THEN 1 ELSE 0]
+(* width-n vector with bits lo..hi-1 (0-based, half open) set, lo <= hi <= n *)
+MaskRange(n, lo, hi) == Zeros(lo) \o Ones(hi - lo) \o Zeros(n - hi)
 
 (***************************************************************************)
-(* Naturals <-> bit vectors (small values only: x < 2^30, n <= 30 useful)   *)
+(* Naturals <-> bit vectors (small values only: x < 2^30)                   *)
 (***************************************************************************)
 FromNat(x, n) == [k \in 1..n |-> IF k <= 31 THEN (x \div Pow2(k - 1)) % 2 ELSE 0]
 
@@ -49,34 +54,46 @@ ToNatFrom(b, k) == IF k > Len(b) THEN 0 ELSE b[k] + 2 * ToNatFrom(b, k + 1)
 (* value of a vector of at most 30 bits *)
 ToNat(b) == ToNatFrom(b, 1)
 
-(* value of the 8 bits of b starting at 0-based bit s (bits past the end = 0) *)
+(* value of the 8 bits of b starting at 0-based bit s; all 8 must exist *)
+ByteAtFull(b, s) ==
+    b[s + 1] + 2 * b[s + 2] + 4 * b[s + 3] + 8 * b[s + 4]
+    + 16 * b[s + 5] + 32 * b[s + 6] + 64 * b[s + 7] + 128 * b[s + 8]
+
+(* same, bits past the end read as 0 *)
 ByteAt(b, s) ==
-    BitAt(b, s) + 2 * BitAt(b, s + 1) + 4 * BitAt(b, s + 2) + 8 * BitAt(b, s + 3)
-    + 16 * BitAt(b, s + 4) + 32 * BitAt(b, s + 5) + 64 * BitAt(b, s + 6)
-    + 128 * BitAt(b, s + 7)
+    IF s + 8 <= Len(b) THEN ByteAtFull(b, s)
+    ELSE BitAt(b, s) + 2 * BitAt(b, s + 1) + 4 * BitAt(b, s + 2) + 8 * BitAt(b, s + 3)
+         + 16 * BitAt(b, s + 4) + 32 * BitAt(b, s + 5) + 64 * BitAt(b, s + 6)
+         + 128 * BitAt(b, s + 7)
 
 (* value of the 4 bits of b starting at 0-based bit s, zero-extended past the end *)
 NibbleAt(b, s) ==
-    BitAt(b, s) + 2 * BitAt(b, s + 1) + 4 * BitAt(b, s + 2) + 8 * BitAt(b, s + 3)
+    IF s + 4 <= Len(b) THEN b[s + 1] + 2 * b[s + 2] + 4 * b[s + 3] + 8 * b[s + 4]
+    ELSE BitAt(b, s) + 2 * BitAt(b, s + 1) + 4 * BitAt(b, s + 2) + 8 * BitAt(b, s + 3)
 
 (***************************************************************************)
 (* Bytes <-> bits.  A byte sequence is in MEMORY ORDER (bytes[1] = lowest   *)
 (* address).  Little-endian: byte at the lowest address carries bits 0..7;  *)
 (* big-endian: the byte at the HIGHEST address carries bits 0..7.           *)
 (***************************************************************************)
-ByteBits(x) == [k \in 1..8 |-> (x \div Pow2(k - 1)) % 2]
+ByteBitsT == [x \in 0..255 |-> [k \in 1..8 |-> (x \div Pow2(k - 1)) % 2]]
+ByteBits(x) == ByteBitsT[x]
 
-BytesToBitsLE(bytes) ==
-    [k \in 1..(8 * Len(bytes)) |->
-        (bytes[((k - 1) \div 8) + 1] \div Pow2((k - 1) % 8)) % 2]
+RECURSIVE BytesToBitsLEFrom(_, _)
+BytesToBitsLEFrom(bytes, j) ==
+    IF j > Len(bytes) THEN <<>>
+    ELSE ByteBitsT[bytes[j]] \o BytesToBitsLEFrom(bytes, j + 1)
+BytesToBitsLE(bytes) == BytesToBitsLEFrom(bytes, 1)
 
-BytesToBitsBE(bytes) ==
-    [k \in 1..(8 * Len(bytes)) |->
-        (bytes[Len(bytes) - ((k - 1) \div 8)] \div Pow2((k - 1) % 8)) % 2]
+RECURSIVE BytesToBitsBEFrom(_, _)
+BytesToBitsBEFrom(bytes, j) ==
+    IF j < 1 THEN <<>>
+    ELSE ByteBitsT[bytes[j]] \o BytesToBitsBEFrom(bytes, j - 1)
+BytesToBitsBE(bytes) == BytesToBitsBEFrom(bytes, Len(bytes))
 
 (* inverse directions; Len(b) must be a multiple of 8 *)
-BitsToBytesLE(b) == [j \in 1..(Len(b) \div 8) |-> ByteAt(b, 8 * (j - 1))]
-BitsToBytesBE(b) == [j \in 1..(Len(b) \div 8) |-> ByteAt(b, Len(b) - 8 * j)]
+BitsToBytesLE(b) == [j \in 1..(Len(b) \div 8) |-> ByteAtFull(b, 8 * (j - 1))]
+BitsToBytesBE(b) == [j \in 1..(Len(b) \div 8) |-> ByteAtFull(b, Len(b) - 8 * j)]
 
 ReverseSeq(s) == [k \in 1..Len(s) |-> s[Len(s) + 1 - k]]
 
@@ -84,26 +101,27 @@ ReverseSeq(s) == [k \in 1..Len(s) |-> s[Len(s) + 1 - k]]
 (* Slicing, extension, splicing                                            *)
 (***************************************************************************)
 (* bits o .. o+w-1 (0-based) of b *)
-Slice(b, o, w) == [k \in 1..w |-> b[o + k]]
+Slice(b, o, w) == SubSeq(b, o + 1, o + w)
 
-ZeroExtend(b, n) == [k \in 1..n |-> IF k <= Len(b) THEN b[k] ELSE 0]
+ZeroExtend(b, n) == b \o Zeros(n - Len(b))
 
 (* two's-complement sign bit (most significant bit); width must be >= 1 *)
 SignBit(b) == b[Len(b)]
 
-SignExtend(b, n) == [k \in 1..n |-> IF k <= Len(b) THEN b[k] ELSE b[Len(b)]]
+SignExtend(b, n) == IF b[Len(b)] = 1 THEN b \o Ones(n - Len(b)) ELSE b \o Zeros(n - Len(b))
 
 Extend(b, n, signed) == IF signed THEN SignExtend(b, n) ELSE ZeroExtend(b, n)
 
-Truncate(b, n) == [k \in 1..n |-> b[k]]
+Truncate(b, n) == SubSeq(b, 1, n)
 
 (* b with bits o..o+Len(f)-1 replaced by f *)
-Splice(b, o, f) ==
-    [k \in 1..Len(b) |-> IF o < k /\ k <= o + Len(f) THEN f[k - o] ELSE b[k]]
+Splice(b, o, f) == SubSeq(b, 1, o) \o f \o SubSeq(b, o + Len(f) + 1, Len(b))
 
 (* all bits of b at 0-based positions >= k are zero / are equal to bit k *)
-HighZero(b, k) == \A j \in (k + 1)..Len(b) : b[j] = 0
-HighAllEqual(b, k) == \A j \in (k + 1)..Len(b) : b[j] = b[k + 1]
+HighZero(b, k) == SubSeq(b, k + 1, Len(b)) = Zeros(Len(b) - k)
+HighAllEqual(b, k) ==
+    LET hi == SubSeq(b, k + 1, Len(b))
+    IN  hi = Zeros(Len(b) - k) \/ hi = Ones(Len(b) - k)
 
 (* v (a two's-complement vector of any width > w) is representable as an    *)
 (* unsigned / signed w-bit integer                                          *)
@@ -118,9 +136,9 @@ And(a, b) == [k \in 1..Len(a) |-> a[k] * b[k]]
 Or(a, b) == [k \in 1..Len(a) |-> IF a[k] + b[k] > 0 THEN 1 ELSE 0]
 Xor(a, b) == [k \in 1..Len(a) |-> (a[k] + b[k]) % 2]
 
-(* logical shifts inside the width *)
-Shl(b, n) == [k \in 1..Len(b) |-> IF k - n >= 1 THEN b[k - n] ELSE 0]
-Shr(b, n) == [k \in 1..Len(b) |-> IF k + n <= Len(b) THEN b[k + n] ELSE 0]
+(* logical shifts inside the width, 0 <= n <= Len(b) *)
+Shl(b, n) == Zeros(n) \o SubSeq(b, 1, Len(b) - n)
+Shr(b, n) == SubSeq(b, n + 1, Len(b)) \o Zeros(n)
 
 (* carry INTO 0-based bit position k when adding a + b + cin *)
 RECURSIVE CarryInto(_, _, _, _)
@@ -137,11 +155,22 @@ AddRec(a, b, c, k) ==
 
 (* a + b modulo 2^Len(a) *)
 Add(a, b) == AddRec(a, b, 0, 1)
-Inc(a) == AddRec(a, Zeros(Len(a)), 1, 1)
-(* two's-complement negation modulo 2^Len(a) *)
-Neg(a) == AddRec(Not(a), Zeros(Len(a)), 1, 1)
+(* two's-complement subtraction modulo 2^Len(a) *)
 Sub(a, b) == AddRec(a, Not(b), 1, 1)
-Dec(a) == Sub(a, OneHot(Len(a), 0))
+
+(* number of consecutive 1s (resp. 0s) at the least significant end *)
+RECURSIVE TrailingRun(_, _, _)
+TrailingRun(b, bit, k) == IF k > Len(b) \/ b[k] # bit THEN k - 1 ELSE TrailingRun(b, bit, k + 1)
+
+(* a + 1 : the trailing run of 1s becomes 0s, the next bit becomes 1 *)
+Inc(a) ==
+    LET r == TrailingRun(a, 1, 1)
+    IN  IF r = Len(a) THEN Zeros(r) ELSE Zeros(r) \o <<1>> \o SubSeq(a, r + 2, Len(a))
+(* a - 1 : the trailing run of 0s becomes 1s, the next bit becomes 0 *)
+Dec(a) ==
+    LET r == TrailingRun(a, 0, 1)
+    IN  IF r = Len(a) THEN Ones(r) ELSE Ones(r) \o <<0>> \o SubSeq(a, r + 2, Len(a))
+Neg(a) == Inc(Not(a))
 
 (***************************************************************************)
 (* Comparison (equal widths).  Result -1 / 0 / 1.                           *)
@@ -152,10 +181,11 @@ CmpFrom(a, b, k) ==
     ELSE IF a[k] = b[k] THEN CmpFrom(a, b, k - 1)
     ELSE IF a[k] < b[k] THEN -1 ELSE 1
 
-CmpU(a, b) == CmpFrom(a, b, Len(a))
+CmpU(a, b) == IF a = b THEN 0 ELSE CmpFrom(a, b, Len(a))
 
 CmpS(a, b) ==
-    IF SignBit(a) # SignBit(b)
+    IF a = b THEN 0
+    ELSE IF SignBit(a) # SignBit(b)
     THEN (IF SignBit(a) = 1 THEN -1 ELSE 1)
     ELSE CmpFrom(a, b, Len(a))
 
@@ -165,11 +195,18 @@ CmpS(a, b) ==
 (***************************************************************************)
 NibbleCount(w) == (w + 3) \div 4
 Nibbles(b) == [j \in 1..NibbleCount(Len(b)) |-> NibbleAt(b, 4 * (j - 1))]
+(* bits (width w) whose nibble view is nb *)
+NibblesToBits(nb, w) == [k \in 1..w |-> (nb[((k - 1) \div 4) + 1] \div Pow2((k - 1) % 4)) % 2]
+
+(* sum of d[j] * 10^(j-lo) for lo <= j <= hi (at most 9 digits: < 2^30) *)
+RECURSIVE DecimalValue(_, _, _)
+DecimalValue(d, lo, hi) ==
+    IF lo > hi \/ lo > Len(d) THEN 0 ELSE d[lo] + 10 * DecimalValue(d, lo + 1, hi)
 
 (***************************************************************************)
 (* Limb numbers: base-256, least significant byte first.                    *)
 (***************************************************************************)
-LimbZero(n) == [k \in 1..n |-> 0]
+LimbZero(n) == Zeros(n)
 
 (* limbs * m + a  (m <= 2^20, a <= 2^20), truncated to Len(limbs) limbs *)
 RECURSIVE LimbMulAddRec(_, _, _, _)
@@ -185,9 +222,9 @@ LimbMulAddCarry(limbs, m, carry, k) ==
     IF k > Len(limbs) THEN carry
     ELSE LimbMulAddCarry(limbs, m, (limbs[k] * m + carry) \div 256, k + 1)
 
-(* short division by a small d (d <= 2^20): quotient limbs and remainder *)
+(* short division by a small d (d <= 2^20): quotient limbs (same length) *)
 RECURSIVE LimbDivRec(_, _, _, _)
-LimbDivRec(limbs, d, rem, k) ==   \* processes limb k (from the top), returns <<quotient limbs k..1 reversed..., >>
+LimbDivRec(limbs, d, rem, k) ==
     IF k = 0 THEN <<>>
     ELSE LET t == rem * 256 + limbs[k]
          IN  LimbDivRec(limbs, d, t % d, k - 1) \o <<t \div d>>
@@ -198,13 +235,15 @@ LimbModRec(limbs, d, rem, k) ==
     IF k = 0 THEN rem ELSE LimbModRec(limbs, d, (rem * 256 + limbs[k]) % d, k - 1)
 LimbMod(limbs, d) == LimbModRec(limbs, d, 0, Len(limbs))
 
-LimbIsZero(limbs) == \A k \in 1..Len(limbs) : limbs[k] = 0
+LimbIsZero(limbs) == limbs = Zeros(Len(limbs))
 
 (* unsigned comparison of equal-length limb numbers *)
-LimbCmp(a, b) == CmpFrom(a, b, Len(a))
+LimbCmp(a, b) == IF a = b THEN 0 ELSE CmpFrom(a, b, Len(a))
 
 LimbsToBits(limbs) == BytesToBitsLE(limbs)
-BitsToLimbs(b) == [j \in 1..((Len(b) + 7) \div 8) |-> ByteAt(b, 8 * (j - 1))]
+BitsToLimbs(b) ==
+    IF Len(b) % 8 = 0 THEN BitsToBytesLE(b)
+    ELSE [j \in 1..((Len(b) + 7) \div 8) |-> ByteAt(b, 8 * (j - 1))]
 
 (* decimal digit sequence (least significant digit first) -> n limbs *)
 RECURSIVE DigitsToLimbsRec(_, _, _)
